@@ -51,6 +51,20 @@ def emission_arity_ok(ck, mod, fn, call, type_name, operands_expr):
 
 
 def run(ck: Checker):
+    from ..core import AnalysisError
+    ck.rule('C13.FOLD', 'build_miter folded on instances of the repository\'s Circuit class over pairs of small circuits (0-2 outputs, outputs that are inputs or repeated, different input labels and orders; top_sort by oracle): operands untouched, inputs in the left order, one output, True exactly where the output vectors differ; mismatched shapes raise MiterDifferentShapesError')
+    pending = None
+    try:
+        from .. import compose_fold
+        compose_fold.fold_miter(ck, 'C13.FOLD')
+    except AnalysisError as e:
+        pending = e   # the structural rules below still decide what they can; the fold's failure is reported afterwards
+    _structural(ck)
+    if pending is not None:
+        raise pending
+
+
+def _structural(ck: Checker):
     repo = ck.repo
     m = repo.mod(MITER)
     fn = m.func('build_miter')
@@ -110,7 +124,19 @@ def run(ck: Checker):
     ck.check(len(rights) == 1 and rights[0][1] == 'connect_circuit' and k1.get('this_connectors') == f'{mv}.get_block({ln_name}).inputs' and k1.get('other_connectors') == f'{r}.inputs'
              and k1.get('right_connect', 'False') == 'False' and k1.get('name') == rn_name, 'C13.WIRE', m, rights[0][0] if rights else fn,
              'the right circuit\'s inputs are fed, in order, by the left block\'s inputs', f'arguments {k1}' if rights else 'no call attaches the right circuit', construct='build_miter: connect right circuit')
-    xors = [x for x in attach if x[4] == f'generate_pairwise_xor({l}.output_size)']
+    def _is_xor_stage(text):
+        try:
+            e = ast.parse(text, mode='eval').body
+        except SyntaxError:
+            return False
+        if not (isinstance(e, ast.Call) and norm(e.func) == 'generate_pairwise_xor' and len(e.args) == 1 and not e.keywords):
+            return False
+        a = e.args[0]
+        if isinstance(a, ast.Name):
+            d = deref(fn, a)
+            a = d if d is not None else a
+        return norm(a) in (f'{l}.output_size', f'{r}.output_size', f'len({l}.outputs)', f'len({r}.outputs)')
+    xors = [x for x in attach if x[4] is not None and _is_xor_stage(x[4])]
     k2 = xors[0][2] if xors else {}
     px = xors[0][3] if xors else None
     want_this = f'{mv}.get_block({ln_name}).outputs + {mv}.get_block({rn_name}).outputs'
@@ -118,7 +144,7 @@ def run(ck: Checker):
         why = (f'`{norm(xors[0][0])[:110]}` passes no connectors: they default to the miter\'s current outputs, which omit every output that is an input or was used as a connector; '
                'circuits with a pass-through output can no longer be compared')
     else:
-        why = f'arguments {k2}' if xors else 'no call attaches generate_pairwise_xor(left.output_size)'
+        why = f'arguments {k2}' if xors else 'no call attaches generate_pairwise_xor(<number of outputs>)'
     ck.check(len(xors) == 1 and k2.get('this_connectors') == want_this and k2.get('other_connectors') in (f'{px}.inputs',) and k2.get('right_connect', 'False') == 'False',
              'C13.WIRE', m, xors[0][0] if xors else fn, 'the xor block receives all left outputs then all right outputs (as recorded in the two blocks) against its inputs', why, construct='build_miter: connect pairwise xor')
     ck.check(len(attach) == 2, 'C13.WIRE', m, fn, 'nothing else is attached to the miter', f'{len(attach)} attaching calls: {[norm(x[0])[:60] for x in attach]}', construct='build_miter: attached circuits')
